@@ -1199,6 +1199,9 @@ func (m *Machine) callFunction(fn *ssa.Function, args []Value, caps []Value, pos
 		switch fn.Pkg.Pkg.Path() {
 		case "github.com/cosmos/cosmos-sdk/types", "cosmossdk.io/math":
 			m.funcs["intrinsic:opaque-String:"+name]++
+			if exact := m.exactNumString(fn, args[0]); exact != nil {
+				return exact
+			}
 			return m.opaqueFmt(name, args[0])
 		}
 	}
@@ -1384,4 +1387,28 @@ func debugf(format string, a ...interface{}) {
 	if os.Getenv("GOSYM_DEBUG") != "" {
 		fmt.Fprintf(os.Stderr, format+"\n", a...)
 	}
+}
+
+// exactNumString renders concrete sdk.Int / sdk.Dec values exactly (parameters round-trip through strings).
+func (m *Machine) exactNumString(fn *ssa.Function, recv Value) *Term {
+	rt := fn.Signature.Recv().Type()
+	sv, ok := recv.(*StructVal)
+	if !ok || len(sv.f) != 1 {
+		return nil
+	}
+	p, ok := m.peekPtr(sv.f[0])
+	if !ok || p.cell == nil {
+		return nil
+	}
+	bv, ok := getPath(p.cell.elems[p.idx], p.path).(*BigVal)
+	if !ok || !bv.t.IsConst() {
+		return nil
+	}
+	if isNamed(rt, sdkTypes, "Dec") {
+		return m.in.Str(decString(bv.t.iv))
+	}
+	if isNamed(rt, "cosmossdk.io/math", "Int") {
+		return m.in.Str(bv.t.iv.String())
+	}
+	return nil
 }
